@@ -377,13 +377,14 @@ impl SaveDirState {
                         self.handle_thin_archive(source_path, parsed_args)?;
                     }
                     Ok(FileKind::Text) => {
-                        let is_in_sysroot =
-                            match (normalize_abs_path(source_path), parsed_args.sysroot()) {
-                                (Some(source_path), Some(sysroot)) => {
-                                    source_path.starts_with(sysroot)
-                                }
-                                _ => false,
-                            };
+                        // The sysroot was canonicalised when we parsed our arguments, so a script
+                        // that's reached via a symlink needs to be canonicalised as well.
+                        let is_in_sysroot = parsed_args.sysroot().is_some_and(|sysroot| {
+                            normalize_abs_path(source_path)
+                                .is_some_and(|path| path.starts_with(sysroot))
+                                || std::fs::canonicalize(source_path)
+                                    .is_ok_and(|path| path.starts_with(sysroot))
+                        });
 
                         // We make paths in linker scripts relative, but only if they're not inside
                         // of the sysroot. If they're inside the sysroot, then they need to remain
